@@ -2,6 +2,7 @@ package checks
 
 import (
 	"fmt"
+	"go/token"
 	"go/types"
 	"sort"
 	"strings"
@@ -296,6 +297,100 @@ func runC05(c *Ctx) {
 	R.Require("E1.index", 3, "")
 	if lemma && a.PairedUsed == 0 {
 		R.Fatal("the paired-map lemma was established but never used by E1 (the timestamp-record dereference was not found)")
+	}
+	// ---- the completed body concatenates every slot of the table, in index order
+	{
+		R.Rules["S.concat-all"] = "the body of the completed message is built by appending the slots of the part table over an ascending index loop from 0 whose bound is the announced total that the completion test compared with (or the whole table's length): not a prefix, not a re-slice"
+		cp := c.P.Method("service", "packageParse", "completePack")
+		ok, d := false, "no loop appending the slots of the part table found in completePack"
+		if cp != nil {
+			// the total compared with the number of received parts
+			var total ssa.Value
+			for _, b := range cp.Blocks {
+				if iff, isIf := b.Instrs[len(b.Instrs)-1].(*ssa.If); isIf {
+					if cmp, isCmp := iff.Cond.(*ssa.BinOp); isCmp && cmp.Op == token.EQL {
+						if _, isPhi := cmp.X.(*ssa.Phi); isPhi {
+							total = cmp.Y
+						}
+					}
+				}
+			}
+			for _, b := range cp.Blocks {
+				for _, ins := range b.Instrs {
+					app, isApp := isBuiltinCall(ins, "append")
+					if !isApp || len(app.Call.Args) != 2 {
+						continue
+					}
+					ld, isLd := app.Call.Args[1].(*ssa.UnOp)
+					if !isLd {
+						continue
+					}
+					ia, isIA := ld.X.(*ssa.IndexAddr)
+					if !isIA {
+						continue
+					}
+					fromTable := false
+					for _, o := range c.origins(ia.X, nil, nil) {
+						if o.Kind == "field" && strings.HasSuffix(o.Name, ".subcontractingRecord") {
+							fromTable = true
+						}
+					}
+					if !fromTable {
+						continue
+					}
+					ok, d = false, "the loop over the slots is not an ascending index loop from 0 with step 1"
+					// (a) range over the table itself
+					if s2, asc := ascendingIndexOver(ia.Index); asc {
+						if _, resliced := s2.(*ssa.Slice); resliced {
+							d = "the concatenation runs over a re-slice of the part table: the parts behind it are dropped from the completed message"
+						} else {
+							ok, d = true, ""
+						}
+						continue
+					}
+					// (b) classic loop i < bound
+					if phi, isPhi := ia.Index.(*ssa.Phi); isPhi {
+						init, step := false, true
+						for _, e := range phi.Edges {
+							if v, isC := constInt(e); isC && v == 0 {
+								init = true
+							} else if bo, isB := e.(*ssa.BinOp); isB && bo.Op == token.ADD && bo.X == ssa.Value(phi) {
+								if one, isOne := constInt(bo.Y); !isOne || one != 1 {
+									step = false
+								}
+							} else {
+								step = false
+							}
+						}
+						var bound ssa.Value
+						for _, ref := range *phi.Referrers() {
+							if cmp, isCmp := ref.(*ssa.BinOp); isCmp && cmp.Op == token.LSS && cmp.X == ssa.Value(phi) {
+								bound = cmp.Y
+							}
+						}
+						switch {
+						case !init || !step || bound == nil:
+						case total != nil && bound == total:
+							ok, d = true, ""
+						default:
+							if ln, isLn := isBuiltinCall(instrOf(bound), "len"); isLn {
+								if _, resliced := ln.Call.Args[0].(*ssa.Slice); !resliced {
+									ok, d = true, ""
+									break
+								}
+							}
+							d = "the concatenation loop is bounded by something other than the announced total the completion test used (or the table's length): a completed message can carry only part of the packets"
+						}
+					}
+				}
+			}
+		}
+		st := report.Discharged
+		if !ok {
+			st = report.Violated
+		}
+		R.Add("S.concat-all", "(*service.packageParse).completePack / all slots, ascending", "", st, d)
+		R.Require("S.concat-all", 1, "")
 	}
 	R.Explain = "Decided for every decoded header (any package number, any total) and any parser state: the slot index and the concatenation loop are in range (E1), " +
 		"the timestamp record dereferenced after a slot store exists (paired-map lemma, checked structurally and then used by E1), a rejected package number leaves no side effect, " +
